@@ -14,17 +14,122 @@ RULE = (
   "x random state, 1-2 worlds; oracle: MuJoCo's Gauss cost (inertia term + mj_constraintUpdate on MuJoCo's own rows) evaluated at MJWarp's qacc must not exceed the cost at "
   "MuJoCo's tightly converged qacc by more than the solver tolerance allows, the cost gradient at MJWarp's qacc must be small, qacc must agree with MuJoCo's, and the reported "
   "efc.force / qfrc_constraint must be the forces implied by that qacc; worlds with ITERATIONS/LS_ITERATIONS set are judged on the force identity only; "
-  "evaluation = one world; non-trivial = >=1 active inequality row (contact/limit/friction) in the solution"
+  "plus (1 case in 5) contact-only free-body scenes solved for 2-4 states on ONE Data (rows appear and vanish; sleep flag on/off): qacc against MuJoCo's tightly converged qacc "
+  "(Newton 2e-2; worlds without rows 1e-3 for either solver); evaluation = one world (and step); non-trivial = >=1 active inequality row (contact/limit/friction) in the solution, or a re-solved world"
 )
 ASSUMPTIONS = ["rows must match MuJoCo's (C05) for the certificate to be evaluated; other worlds are counted as skipped", "MuJoCo Newton with tolerance 1e-10 is the reference optimum"]
 BUDGET = {"quick": dict(examples=400, seconds=150, workers=16), "thorough": dict(examples=10000, seconds=1500, workers=16)}
 
 
 def strategy(tier):
-  return solvercase.strategy(tier)
+  from hypothesis import strategies as st
+
+  from vf.props import c24
+
+  # 1 case in 5: contact-only free-body scenes solved for 2-4 states on ONE Data (states with contacts alternate with states without any row), with and
+  # without the sleep flag (compacted solve); oracle there: qacc against MuJoCo's tightly converged qacc for the same state
+  return st.one_of(solvercase.strategy(tier), solvercase.strategy(tier), solvercase.strategy(tier), solvercase.strategy(tier), c24._reuse_strategy())
+
+
+def _check_reuse(case, rec):
+  import mujoco
+  import mujoco_warp as mjw
+
+  from vf import gen, mjw as H
+  from vf.core import Reject
+
+  cfg = dict(case["cfg"])
+  opt = dict(case["opt"])
+  flags = {}
+  if case["sleep"]:
+    opt["solver"] = "Newton"
+    flags["sleep"] = "enable"
+    if not case["island"]:
+      flags["island"] = "disable"
+  if flags:
+    opt["flags"] = flags
+  cfg["option"] = opt
+  mjm = H.compile_spec(gen.make_spec(cfg))
+  if mjm.nv == 0 or mjm.nq != 7 * mjm.nbody - 7:
+    raise Reject("not a free-body scene")
+  ref = mjm.__copy__()
+  ref.opt.tolerance, ref.opt.iterations, ref.opt.ls_iterations, ref.opt.solver = 1e-10, 200, 100, int(mujoco.mjtSolver.mjSOL_NEWTON)
+  n = case["nworld"]
+  m = H.put_model(mjm)
+  d = H.make_data(mjm, nworld=n, nconmax=150, njmax=600)
+  prev_rows = [0] * n
+  for k, kinds in enumerate(case["seq"]):
+    states = []
+    for w in range(n):
+      s = H.rand_state(mjm, case["seed"] + 17 * k + 101 * w, sigma=0.1, vel=0.3, applied=False)
+      q = np.array(s["qpos"], dtype=np.float64)
+      if kinds[w] == "apart":
+        for b in range(mjm.nbody - 1):
+          q[7 * b : 7 * b + 3] = [3.0 * b, 3.0 * w, 5.0 + 2.0 * b]
+      else:
+        tmp = mujoco.MjData(mjm)
+        H.set_mjd(tmp, s)
+        try:
+          for _ in range(5):
+            mujoco.mj_step(mjm, tmp)
+        except mujoco.FatalError:
+          raise Reject("mujoco aborts on this model")
+        if np.all(np.isfinite(tmp.qpos)) and np.all(np.isfinite(tmp.qvel)):
+          q, s["qvel"] = np.array(tmp.qpos), H.f32(tmp.qvel)
+      s["qpos"] = H.f32(q)
+      states.append(s)
+    H.set_data(d, states)
+    mjw.forward(m, d)
+    of = H.overflow(d)
+    if (of & int(OT.NEFC | OT.NJMAX_NNZ | OT.BROADPHASE | OT.NARROWPHASE | OT.NVMAX)).any():
+      rec.inconclusive += 1
+      return
+    qacc = d.qacc.numpy()
+    fresh = H.make_data(mjm, nworld=n, nconmax=150, njmax=600)
+    H.set_data(fresh, states)
+    mjw.forward(m, fresh)
+    qfresh, offresh = fresh.qacc.numpy(), H.overflow(fresh)
+    for w in range(n):
+      mjd = mujoco.MjData(ref)
+      H.set_mjd(mjd, states[w])
+      try:
+        mujoco.mj_forward(ref, mjd)
+      except mujoco.FatalError:
+        rec.rejected += 1
+        continue
+      nefc = int(d.nefc.numpy()[w])
+      rec.cls(f"reuse:{kinds[w]}", f"reuse:nefc0:{nefc == 0}", f"reuse:sleep:{case['sleep']}", f"reuse:sparse:{bool(m.is_sparse)}", f"reuse:cone:{opt['cone']}")
+      cw, cm = H.contacts(d, w), H.mj_contacts(mjd)
+      pairs, ua, ub = H.match_contacts(cw, cm)
+      # same rows as MuJoCo: same contacts incl. the tangent frame (a different but valid tangent choice turns the friction pyramid, C05's recorded finding)
+      same = not (ua or ub) and nefc == mjd.nefc and all(
+        np.linalg.norm(cw["pos"][a] - cm["pos"][b]) < 1e-3 and abs(cw["dist"][a] - cm["dist"][b]) < 1e-4 and np.max(np.abs(np.asarray(cw["frame"][a], dtype=np.float64) - cm["frame"][b])) < 1e-3
+        for a, b in pairs
+      )
+      ctx = dict(world=w, step=k, kinds=kinds, nefc=nefc, rows_before=prev_rows[w], sleep=case["sleep"], cone=opt["cone"], solver=opt["solver"])
+      ascale = max(1.0, float(np.max(np.abs(mjd.qacc))))
+      if not (int(of[w]) | int(offresh[w])) & int(OT.ITERATIONS | OT.LS_ITERATIONS):
+        # the re-solved Data and a fresh Data are given the same problem: both must return its optimum
+        rec.ev()
+        check_close(rec, "qacc: reused Data vs fresh Data", qacc[w], qfresh[w], 1e-4, scale=ascale, sig="reuse:vs-fresh", **ctx)
+      if not same or (int(of[w]) & int(OT.ITERATIONS | OT.LS_ITERATIONS)):
+        rec.boundary_skipped += 1
+        prev_rows[w] = nefc
+        continue
+      rec.ev()
+      # CG at MJWarp's tolerance is judged in cost space by the main class; here Newton and the row-free worlds (qacc = qacc_smooth for any solver)
+      if opt["solver"] == "Newton" or nefc == 0:
+        check_close(rec, "qacc vs mujoco (reused Data)", qacc[w], mjd.qacc, 2e-2 if nefc else 1e-3, scale=ascale, sig="reuse:qacc", **ctx)
+      if nefc == 0 and prev_rows[w] > 0:
+        rec.nt(extra=["reuse", k, w])
+      elif nefc > 0 and k > 0:
+        rec.nt(extra=["reuse", k, w])
+      prev_rows[w] = nefc
 
 
 def check(case, rec):
+  if case.get("kind") == "reuse":
+    return _check_reuse(case, rec)
   mjm, m, d, worlds = solvercase.evaluate(case, rec)
   qacc = d.qacc.numpy()
   qfrc = d.qfrc_constraint.numpy()
